@@ -417,7 +417,8 @@ end EventLines
       fops presence <id:state csv> <present ids csv> <sub>*      sub = adjust|… / reload|… / validuntil|… (args joined by `|`)
       fops loadapp <aid> <manifest|~> <inCell> <match:prio:alloc csv> <default alloc> <blacklist matches csv>
                    manifest = prio|~/m,c,d/aff/limits/group|none/once/retention|none/lease/traits
-      fops idg <existing ids csv> <stored id:(e|n|<count>) csv> -/
+      fops idg <existing ids csv> <stored id:(e|n|<count>) csv>
+      fops blacklist <app:matchbits csv>   (one 0/1 per entry of the new list, `-` = empty list)   -> <app:flag csv> -/
 namespace OpsLines
 open TmVerif.LoaderOps TmVerif.LoaderDecode
 
@@ -539,6 +540,13 @@ def line (ws : List String) : Option String :=
         pure ((← g.toNat?), dd)
       | _ => none)
     pure (showCalls (identityGroupCalls (← natList? existing) st))
+  | ["fops", "blacklist", apps] => do
+    let ap ← (csv apps).mapM (fun t => match t.splitOn ":" with
+      | [a, bits] => do
+        let ms ← (if bits = "-" then some [] else bits.toList.mapM (fun ch => if ch = '1' then some true else if ch = '0' then some false else none))
+        pure ((← a.toNat?), ms)
+      | _ => none)
+    pure (showCsv ((blacklistFlags ap).map (fun q => s!"{q.1}:{showBool q.2}")))
   | _ => none
 end OpsLines
 
